@@ -7,47 +7,37 @@ import json, os, subprocess, sys
 V = os.path.dirname(os.path.dirname(os.path.abspath(__file__)))
 
 TB = ("Trusted: Coq 8.16.1 kernel + vm_compute (no native_compute), no axioms declared (Print Assumptions of every "
-      "theorem is copied into the evidence); extraction with ExtrOcamlBasic only + OCaml 4.13.1; gcc 12 / clang 14; "
+      "theorem is copied into the evidence); extraction with ExtrOcamlBasic (plus ExtrOcamlString in coq/Extract.v for the window names of the generated schedules; no Extract Constant for numbers) + OCaml 4.13.1; gcc 12 / clang 14; "
       "the hand-written models are tied to the C code by the correspondence run (c/harness.c over the freshly built "
       "library vs ocaml/driver.ml over the extracted models, same seeded op scripts) - agreement on the generated "
-      "inputs, not equivalence; translators tools/translate.py (T1), tools/sched_extract.py (T2), "
+      "inputs, not equivalence; translators tools/translate.py + tools/translate_acc.py (T1), tools/sched_extract.py (T2), "
       "tools/alloc_sites.py + tools/globals_extract.py (T3).")
 
 CLAIMS = {
- "C01": dict(text="Proof (Coq): the faithful models of the cubic routes, of _mzd_mul_va and of M4RM (all k, all block sizes, arbitrary stale "
-             "tables and uninitialised index buffers) equal the abstract product A*B / C+A*B for every input (Properties_C01a); "
-             "Strassen-Winograd/mp schedules are re-extracted from strassen.c/mp.c on every run and re-proved (Properties_C01b, when present). "
-             "Tie: exact differential of every route (incl. DJB, squaring route, supplied/allocated destination, k in 0..16, cutoffs) against the proven spec on "
-             "seeded structured inputs aimed at the regime boundaries.",
-             note=TB + " DJB compile/apply and the SIMD kernels are covered by correspondence only.",
-             technique="Coq proof of executable route models (refinement to A*B) + differential correspondence", design="5/C01"),
- "C02": dict(text="Proof (Coq): naive Gauss returns rank, a row-equivalent (R)REF; RREF and rank are unique; the non-reduced form under "
-             "left-most-column/first-row pivoting is unique; top reduction gives the RREF (Properties_C02). Tie: every route (naive, M4RI k=0..10, "
-             "PLUQ-based, hybrid with thresholds, top-reduction) compared exactly with the proven model on prescribed rank profiles.",
-             note=TB + " The M4RI block loop and the PLUQ-based construction are modelled/proven in Properties_C02b when present; until then they are decided by the exact differential against the unique (R)REF.",
-             technique="Coq proof (uniqueness of RREF, Gauss model) + exact differential of all routes", design="5/C02"),
- "C03": dict(text="Proof (Coq): naive PLE/PLUQ meet the factorisation specification for all inputs and all initial P,Q; PLUQ-from-PLE correct; the "
-             "boolean checkers ple_ok/pluq_ok reflect the specification. Tie: the verified checkers run on the outputs of every C route "
-             "(mzd_ple, mzd_pluq, naive, russian) and exact differential of (A',P,r,Q[0..r)).",
-             note=TB + " The Four-Russians base case is not modelled step by step; it is decided by the verified checker on its outputs.",
-             technique="Coq proof of PLE/PLUQ models + verified checker on implementation outputs", design="5/C03"),
+ "C01": dict(text="Proof (Coq): the faithful models of the cubic routes, of _mzd_mul_va and of M4RM (all k, all block sizes, arbitrary stale tables and uninitialised index buffers) equal A*B / C+A*B for every input (Properties_C01a); the four mutually recursive Strassen-Winograd routines with the C split arithmetic and the mp.c front end (every interleaving of its four sections), over schedules re-extracted from strassen.c/mp.c by translator T2 on every run and re-checked (Properties_C01b); the DJB heap model, compile + apply = A*V (Properties_C01c). Tie: exact differential of every route incl. the kernel _mzd_mul_naive, squaring route, operands as views and sharing storage, supplied/allocated destination, k in 0..16, cutoffs, against the proven specification (Tier A) and bit-identity of the algorithm-faithful models incl. table contents and the DJB op list with the build's constants (Tier B).",
+             note=TB + " SIMD kernels and Duff's devices are below the models (correspondence in all pointer phases, sse2 and scalar builds); int overflow of closer() guarded by hypothesis ub_guard.",
+             technique='Coq proof of executable route models (refinement to A*B), schedules regenerated from the C source (T2) + two-tier differential correspondence', design="5/C01"),
+ "C02": dict(text="Proof (Coq): naive Gauss returns rank and a row-equivalent (R)REF; RREF and rank unique; the non-reduced form under left-most-column/first-row pivoting unique; the M4RI block loop with 1..6 tables, lazy clearing, the kbar<kk branch, the density oracle and top reduction = Gauss for every k >= 1, both modes (Properties_C02, C02b); PLUQ-based construction and hybrid (Properties_C02c). Tie: every route (naive, M4RI k=0..10, PLUQ-based, hybrid with thresholds, top-reduction) compared exactly with the proven model on prescribed rank profiles, table-split residues, wide pivot-gap inputs; Tier B with the build's constants.",
+             note=TB,
+             technique='Coq proof (uniqueness of RREF, Gauss and M4RI models) + exact differential of all routes', design="5/C02"),
+ "C03": dict(text="Proof (Coq): naive PLE/PLUQ meet the factorisation specification for all inputs and all initial P,Q; PLUQ-from-PLE; the block recursion of ple.c incl. Schur complement, offset fix-ups and _mzd_compress_l for every cutoff (Properties_C03); the Four-Russians base case _mzd_ple_russian/_mzd_pluq_russian (lazy block elimination, 1..7 tables with M/E/B index arrays, a10/a11/process_rows updates) is bit-identical with the naive routine for every k >= 1, unconditionally, hence mzd_ple/mzd_pluq over the library's own base case meet the specification (Properties_C03r). Tie: verified checkers ple_ok/pluq_ok on the outputs of every C route in host/small/stress builds, exact (A',P,r,Q[0..r)), and bit-identity of the faithful base-case model (Tier B, explicit k 1..9 and automatic k).",
+             note=TB,
+             technique='Coq proof of PLE/PLUQ models incl. the Four-Russians base case + verified checker on implementation outputs + Tier-B differential', design="5/C03"),
  "C04": dict(text="Proof (Coq): the four substitution models return the unique X with T*X=B / X*T=B reading only the named triangle; the recursive "
              "models with all regime thresholds equal them. Tie: exact differential of X for the eight entry points with garbage in the unused triangle.",
              note=TB, technique="Coq proof (uniqueness + recursion) + exact differential", design="5/C04"),
- "C05": dict(text="Proof (Coq): inversion through the RREF of [A|I] returns the two-sided inverse of every invertible A, independent of k; triangular "
-             "inversion returns the unit upper triangular inverse. Tie: exact differential with the unique inverse.",
-             note=TB, technique="Coq proof + exact differential", design="5/C05"),
+ "C05": dict(text="Proof (Coq): inversion through the RREF of [A|I] returns the two-sided inverse of every invertible A, independent of k; the recursion of mzd_trtri_upper for any base routine meeting its specification; the 4-table base routine mzd_trtri_upper_russian (faithful model: L index array, running bits ^= B[x], stale tables, tail loop) is bit-identical with back substitution for every admissible k (1..16), so mzd_trtri_upper over the library's own base routine inverts (Properties_C05). Tie: exact differential with the unique inverse incl. structured (sparse, banded, few-entry) inputs; Tier B: trtri_upper_russian with explicit k 0..16 and the recursion, host and small-cache builds.",
+             note=TB,
+             technique='Coq proof incl. the Four-Russians base routine + exact differential (two tiers)', design="5/C05"),
  "C06": dict(text="Proof (Coq): the model of solve.c returns 0 iff the padded system is solvable and then A*X=B, for both entry points; the pinned "
              "(pre-repair) variant is refuted by a witness. Tie: verdict compared with the rank criterion, A*X=B checked, exact X.",
              note=TB, technique="Coq proof of the solve model + differential of verdict/solution", design="5/C06"),
  "C07": dict(text="Proof (Coq): the kernel model returns None iff rank = ncols, else an n x (n-r) matrix with A*K=0 and independent columns. Tie: "
              "kernel_ok on the C output (dimension, product, rank of K) and exact K.",
              note=TB, technique="Coq proof + verified check of implementation output", design="5/C07"),
- "C08": dict(text="Proof (Coq): word-level kernels (add incl. aliasing, copy, copy_row, set_ui, submatrix aligned/unaligned, concat, stack, extract) refine "
-             "the abstract operations for all headers and memory contents; transpose laws on the abstract model. Tie: exact differential incl. "
-             "supplied/allocated destinations, all width classes, all transpose size classes.",
-             note=TB + " The transpose bit-twiddling kernels are decided by correspondence (structured + single-entry inputs), not by proof.",
-             technique="Coq refinement proofs of word-level kernels + exact differential", design="5/C08"),
+ "C08": dict(text='Proof (Coq): word-level kernels (add incl. aliasing, copy, copy_row, set_ui, submatrix aligned/unaligned incl. larger destination, concat, stack, extract) refine the abstract operations for all headers and memory contents (Properties_C08); the transpose kernels are TRANSLATED from mzd.c on every run (T1, Gen_transpose.v) and proven to transpose for all inputs, and the dispatcher model (pairing, tails, recursion, both dangerous-window branches) equals the abstract transpose for all shapes (Properties_C08t). Tie: exact differential incl. supplied/allocated destinations, mixed owned/view operands, all width classes, every residue class of the transpose kernels incl. source views.',
+             note=TB,
+             technique='Coq refinement proofs of word-level kernels, transpose kernels regenerated from the C text (T1) + exact differential', design="5/C08"),
  "C09": dict(text="Proof (Coq), partial: frame/standalone-copy theorems for every modelled word-level kernel on windows (every bit outside the view "
              "unchanged, result = operation on the copy). Algorithms on views are decided by correspondence: every catalogue operation x every subset of "
              "operands as windows x placements, result vs model on the standalone copy and every raw parent bit compared.",
@@ -67,10 +57,9 @@ CLAIMS = {
              "route cfg1 x = route cfg2 x. Tie: the same seeded cases in a matrix of builds (cache triples x sse2 x thread-safe x openmp), each equal to the "
              "configuration-free model.",
              note=TB, technique="Coq corollaries of parameter-generic route theorems + build-matrix differential", design="5/C12"),
- "C13": dict(text="Proof (Coq): pointwise effect of row/column primitives and bit-range operations; left/right application multiply by the same permutation "
-             "matrix; transposed application undoes; triangular variant; the blocked gather equals the swap sequence (Properties_C13). Tie: exact "
-             "differential incl. short permutations, all word-boundary index classes.",
-             note=TB, technique="Coq proof (permutation matrices of LAPACK swap sequences) + exact differential", design="5/C13"),
+ "C13": dict(text='Proof (Coq): pointwise effect of row/column primitives, bit-range operations and row combination from word offsets; left/right application multiply by the same permutation matrix; transposed application undoes; triangular variant; the blocked gather equals the swap sequence (Properties_C13); the accessor family of mzd.h (mzd_row, read/write_bit, read/xor/clear_bits, row_swap, row_add_offset, col_swap_in_rows, col_swap) is TRANSLATED from the C text on every run (T1 struct mode, Gen_access.v) and proven equal to these models with frame for all headers incl. windows (Properties_C13t). Tie: exact differential incl. short permutations, all word-boundary index classes, views, the combine family over all (width, start word) pairs.',
+             note=TB + " The SSE2 branch of mzd_row_add_offset is outside the translation (scalar branch translated); covered by the differential in sse2 builds.",
+             technique='Coq proof (permutation matrices of LAPACK swap sequences; accessors regenerated from the C text, T1) + exact differential', design="5/C13"),
  "C14": dict(text="Proof (Coq): invariant of the two-cache allocator model for every well-formed history and all parameters: fresh zero, live disjoint, "
              "free in any order, windows never free data, trace accepted by a real allocator, no retention after fini (Properties_C14, 9 theorems). Tie: "
              "--wrap trace of the real library vs the extracted model up to a bijection of block identities: bounded-exhaustive histories with lowered "
